@@ -130,16 +130,35 @@ def gcase_to_coq(c):
     return "{| gc_id := %d; gc_req := %s; gc_obs := %s |}" % (c["id"], req, obs_to_coq(o))
 
 
+def accepted_encodings():
+    """the case list of the Content-Encoding switch, as the translator read it from the source on this run"""
+    try:
+        return json.load(open(PHRASES))["content_encodings"]
+    except Exception:
+        return ["", "gzip", "snappy"]
+
+
+def handcase_to_coq(c):
+    o = c["obs"]
+    return "{| hc_id := %d; hc_ce := %s; hc_accepted := %s; hc_limit := %d; hc_decoded := %d; hc_handed := %d |}" % (
+        c["id"], coq_string(c["l"].get("ce", "")), b(c["l"].get("ce", "") in accepted_encodings()), int(o.get("limit", 0)), int(o.get("decoded_len", 0)), int(o["handed"]))
+
+
 def eval_cases(ck, name, cases):
     gen = [c for c in cases if c["stream"] == "generic"]
     lim = [c for c in cases if c["stream"] == "limit"]
     frm = [c for c in cases if c["stream"] == "frame"]
     mfm = [c for c in cases if c["stream"] == "mform"]
     rest = [c for c in cases if c["stream"] not in ("generic", "limit", "frame", "mform")]
+    # round 7: what the route is handed behind the real WithOverallContextMiddleware (model/IngestHanded.v)
+    hnd = [c for c in lim if c.get("l") and c["obs"]["outcome"] in ("2xx", "4xx", "5xx") and int(c["obs"].get("handed", -1)) >= 0]
     # the route table is the one regenerated from controller/*.go on this run (gen_routes)
     txt = ("From Coq Require Import List String Ascii ZArith NArith Bool.\n"
-           "From Qryn Require Import model.IngestRobust model.IngestPipe model.IngestFraming model.IngestShared gen.GenGoroutinesWriter.\n"
+           "From Qryn Require Import model.IngestRobust model.IngestPipe model.IngestFraming model.IngestShared model.IngestHanded gen.GenGoroutinesWriter.\n"
            "Import ListNotations.\nOpen Scope string_scope.\nOpen Scope Z_scope.\n"
+           "Definition hcases : list handcase := [\n  " + ";\n  ".join(handcase_to_coq(c) for c in hnd) + "].\n"
+           "Definition HM := Eval vm_compute in hand_mismatches hcases.\nPrint HM.\n"
+           "Definition HV := Eval vm_compute in hand_spec_violations hcases.\nPrint HV.\n"
            "Definition cases : list case := [\n  " + ";\n  ".join(case_to_coq(c) for c in rest) + "].\n"
            "Definition mfcases : list mfcase := [\n  " + ";\n  ".join(mfcase_to_coq(c) for c in mfm) + "].\n"
            "Definition gcases : list gcase := [\n  " + ";\n  ".join(gcase_to_coq(c) for c in gen) + "].\n"
@@ -152,13 +171,20 @@ def eval_cases(ck, name, cases):
     if rc != 0:
         return None, None, out
     flat = " ".join(out.split())
-    m = re.search(r"M = \[(.*?)\]\s*: list Z", flat)
-    v = re.search(r"V = \[(.*?)\]\s*: list Z", flat)
+    m = re.search(r"\bM = \[(.*?)\]\s*: list Z", flat)
+    v = re.search(r"\bV = \[(.*?)\]\s*: list Z", flat)
     if not m or not v:
         return None, None, out
 
     def ids(s):
         return [int(x) for x in re.findall(r"-?\d+", s)]
+    hm = re.search(r"\bHM = \[(.*?)\]\s*: list Z", flat)
+    hv = re.search(r"\bHV = \[(.*?)\]\s*: list Z", flat)
+    if not hm or not hv:
+        return None, None, out
+    ck.hand_n = getattr(ck, "hand_n", 0) + len(hnd)
+    ck.hand_m = getattr(ck, "hand_m", []) + ids(hm.group(1))
+    ck.hand_v = getattr(ck, "hand_v", []) + ids(hv.group(1))
     return ids(m.group(1)), ids(v.group(1)), out
 
 
@@ -229,7 +255,7 @@ def run_translator(ck):
            "Definition CRL := Eval vm_compute in (gen_run_cases, gen_insert_ctx_writers).\nPrint CRL.\n"
            "Definition CRLM := Eval vm_compute in (run_cases_model, insert_ctx_writers_model).\nPrint CRLM.\n")
     txt = txt.replace("model.IngestPipe gen.GenGoroutinesWriter", "model.IngestPipe model.IngestFraming model.IngestShared model.IngestConn gen.GenGoroutinesWriter")
-    ok, out = ck.coq_make(["model/IngestRobust.vo", "model/IngestPipe.vo", "model/IngestFraming.vo", "model/IngestShared.vo", "model/IngestConn.vo", "gen/GenGoroutinesWriter.vo"])
+    ok, out = ck.coq_make(["model/IngestRobust.vo", "model/IngestPipe.vo", "model/IngestFraming.vo", "model/IngestShared.vo", "model/IngestConn.vo", "model/IngestHanded.vo", "gen/GenGoroutinesWriter.vo"])
     if not ok:
         ck.obligation("generated file compiles", False, out[-1500:])
         return False
@@ -437,6 +463,57 @@ def confirm(ck, cases, suspects):
                 cases.remove(c)
 
 
+KNOWN_ENCODERS = ("", "identity", "gzip", "x-gzip", "deflate", "zlib", "snappy", "x-snappy-framed")     # harness/cmd/ingestfuzz encodeStream
+
+
+def ce_name(ce):
+    return ce or "plain"
+
+
+def check_handed(ck, cases, byid):
+    """round 7 (seeded C05-g): every Content-Encoding the switch of WithOverallContextMiddleware accepts - the list is read from
+    the source on this run - is SENT, with a payload decoding to just over the payload limit and with a bomb, and the bytes the
+    route can read from r.Body behind the real middleware are counted: handed <= limit (oracle), handed = handed_model (tie)"""
+    lim = [c for c in cases if c["stream"] == "limit" and c.get("l")]
+    if not lim:
+        return
+    try:
+        encs = json.load(open(PHRASES))["content_encodings"]
+    except Exception:
+        encs = None
+    if not ck.replay:
+        ck.obligation("the translator lists the cases of the Content-Encoding switch of WithOverallContextMiddleware for the harness", bool(encs), PHRASES)
+        encs = encs or []
+        noenc = [e for e in encs if e not in KNOWN_ENCODERS]
+        ck.obligation("harness ingestfuzz has an encoder for every Content-Encoding the switch accepts (%s)" % ", ".join(repr(e) for e in encs), not noenc,
+                      "no encoder for: %s - add one to encodeStream / decodedLen (harness/cmd/ingestfuzz/main.go) and to KNOWN_ENCODERS" % noenc)
+        classes = [c["class"] for c in lim]
+        unsent = [(e, k) for e in encs for k in ("/over/just-over", "/over/ce-bomb") if not any(("/%s%s" % (ce_name(e), k)) in x for x in classes)]
+        ck.obligation("stream limit: every accepted Content-Encoding is sent with a payload decoding to just over the payload limit and with a "
+                      "bomb (1 GiB decoded, served with the worker's address space capped)", not unsent, "not sent: %s" % unsent)
+        ck.extra["limit_stream_by_content_encoding"] = {ce_name(e): sum(1 for c in lim if c["l"].get("ce", "") == e) for e in encs}
+    unmeasured = [c["id"] for c in lim if c["obs"]["outcome"] in ("2xx", "4xx", "5xx") and int(c["obs"].get("handed", -1)) < 0]
+    ck.obligation("stream limit: the bytes handed to the route (read from r.Body behind the real WithOverallContextMiddleware) were counted for every answered case",
+                  not unmeasured, "cases: %s; %s" % (unmeasured[:10], [byid[i]["obs"].get("handed_detail") for i in unmeasured[:3]]))
+    hm, hv = getattr(ck, "hand_m", []), getattr(ck, "hand_v", [])
+    ck.obligation("handed correspondence: on %d requests of stream limit the real middleware hands the route exactly the bytes handed_model "
+                  "(model/IngestHanded.v: io.Copy over the limiter) computes" % getattr(ck, "hand_n", 0), not hm, "mismatching case ids: %s" % hm[:10])
+    ck.obligation("handed oracle: under every accepted Content-Encoding the decoded bytes handed to the route are <= the configured payload limit",
+                  not hv, "violating case ids: %s" % hv[:10])
+    bad = hv or hm
+    if bad:
+        w = min((byid[i] for i in bad), key=lambda c: (int(c["l"].get("decoded", 0)), c["id"]))
+        o = w["obs"]
+        ck.violation({"property": "C05", "kind": "Content-Encoding %r: the route is handed %s decoded bytes, the payload limit is %s (answered %s)" % (
+            w["l"].get("ce", ""), o.get("handed"), o.get("limit"), o.get("status")) if hv else
+            "handed bytes: model and implementation disagree (handed %s, limit %s, decoded %s)" % (o.get("handed"), o.get("limit"), o.get("decoded_len")),
+            "case": strip_case(w), "observed": o,
+            "explanation": "hand_spec_ok / hand_mismatch (model/IngestHanded.v): the real WithOverallContextMiddleware ran on this request, then r.Body was read "
+                           "with io.Copy and counted; theorem the_route_is_handed_at_most_the_payload_limit bounds it by min(decoded, limit)",
+            "others": [i for i in bad if i != w["id"]][:20],
+            "replay": "bin/check C05 --replay <this file>   (or: ingestfuzz --cases <file with the case line>)"}, no_input=not hv)
+
+
 def run_harness(ck):
     if not ck.go_build("ingestfuzz"):
         ck.obligation("harness ingestfuzz builds against the repository", False, ck.build_out[-1500:])
@@ -510,6 +587,8 @@ def run_harness(ck):
                   "census stable, later requests served, allocation within 64 MiB + 64 x min(max(wire size, decoded size), configured payload limit), snappy limit respected, "
                   "malformed structured input and bodies beyond the payload limit (plain or compressed) not answered 2xx" % (nstruct, nbytes),
                   not viol, "violating case ids: %s" % viol[:10])
+
+    check_handed(ck, cases, byid)
 
     def size(c):
         return len(c["req"].get("body_hex", "")) + (10 ** 7 if c["req"].get("body_gen") else 0) + len(json.dumps(c.get("d") or {}))
